@@ -365,6 +365,20 @@ func RunCheck(o *RunOpts, prop string) int {
 		// confirm: the recorded case must fail the same way five times in a fresh process
 		ok, detail := confirm(o, path, v.Key)
 		if !ok && (strings.HasSuffix(v.Key, "|hang") || strings.HasSuffix(v.Key, "|heap")) {
+			// the watchdog killed the worker in this case, and a fresh single-case run is not killed. If that run
+			// itself reports a violation (a slow or memory-hungry case that the oracle judges once it is allowed to
+			// finish), that violation stands — confirmed like any other, under its own key.
+			if k2, what2 := replayedViolation(o, path); k2 != "" {
+				if ok2, d2 := confirm(o, path, k2); ok2 {
+					nviol++
+					exit = 1
+					if d2 != "" {
+						what2 += " [" + d2 + "]"
+					}
+					fmt.Printf("VIOLATION property=%s replay=%s\n  key=%s cases=%d (the worker was killed by the watchdog in this case; judged from the single-case replay)\n  %s\n", prop, path, k2, v.Count, what2)
+					continue
+				}
+			}
 			// the only wall-clock/resource oracle of the framework: a watchdog kill that does not reproduce in a
 			// fresh single-case run is not evidence of anything; the case was skipped in the re-run, so the
 			// exploration is recorded as capped instead of exhaustive
@@ -585,6 +599,27 @@ func confirm(o *RunOpts, path, key string) (bool, string) {
 		return true, fmt.Sprintf("nondeterministic: the recorded case failed in %d of 5 fresh replays and passed in the others", reproduced)
 	}
 	return false, detail
+}
+
+// replayedViolation runs the replay file once in a fresh process without an expected key and returns the first
+// violation it prints ("" if none).
+func replayedViolation(o *RunOpts, path string) (key, what string) {
+	cmd := exec.Command(o.Exe, "replay", path, "--times", "1", "--expect", "*")
+	var so bytes.Buffer
+	cmd.Stdout = &so
+	cmd.Env = append(os.Environ(), "GOMAXPROCS=2", "GOTRACEBACK=single")
+	_ = cmd.Run()
+	lines := strings.Split(so.String(), "\n")
+	for i, l := range lines {
+		if strings.HasPrefix(l, "replay: ") && strings.Contains(l, "|") {
+			key = strings.TrimPrefix(l, "replay: ")
+			if i+1 < len(lines) {
+				what = strings.TrimSpace(lines[i+1])
+			}
+			return key, what
+		}
+	}
+	return "", ""
 }
 
 // ReplayMain implements `vcheck replay <file> [--times n] [--expect key]`.
